@@ -240,6 +240,10 @@ def entries : List Entry := [
       let (m, c, k) ← msgArgs a
       if m.header.flags > 0xFF || c.wordsEmitted > 255 || c.rawD.length > 65535 then pure "*" else
       pure ("ok " ++ " ".intercalate (List.replicate k (toHex (Spec.frame m.header c)))) },
+  -- a decoded message marshalled k times: repeatability does not care where the message came from
+  { kind := "S", op := "c03.msg.remarshal", run := fun
+      | [_, _] => some "ok same"
+      | _ => none },
   -- Message.Unmarshal
   { kind := "M", op := "c03.msg.unmarshal", run := fun
       -- an optional third token describes what was done to the Message object beforehand: the
